@@ -16,6 +16,13 @@
 #include <stdatomic.h>
 #include <time.h>
 #include "mon_exec.c"
+#ifndef TSCHOONJ_XRAYLIB_VERIF
+/* a library built WITHOUT the hook points (the project's own build): the overlap monitor then sees no events; results, locale and
+ * race reports are judged as usual */
+static void (*xrl_verif_hook)(int);
+enum { XRL_VERIF_PARSER_ENTER = 1, XRL_VERIF_PARSER_LOCALE_SET, XRL_VERIF_PARSER_LOCALE_RESET, XRL_VERIF_PARSER_EXIT, XRL_VERIF_ERROR_STORE,
+       XRL_VERIF_CP_RESOLVED, XRL_VERIF_CRYSTAL_LOOKUP, XRL_VERIF_CRYSTAL_ADD, XRL_VERIF_CP_DONE, XRL_VERIF_CRYSTAL_COPIED };
+#endif
 
 typedef struct { int32_t status, code, aux; uint64_t mh; double v[3]; } tm_res;
 static xv_req *tm_rq; static long tm_n; static tm_res *tm_ref;
